@@ -17,6 +17,10 @@ Definition n_sub : bytes := [95;112;114;105;110;116;101;114;46;95;115;117;98;46;
 Definition n_inst : bytes := [119;101;98;46;95;104;116;116;112;46;95;116;99;112;46;108;111;99;97;108;46] .
 Definition n_host : bytes := [104;111;115;116;49;46;108;111;99;97;108;46] .
 Definition w_ptr : bytes := [0;0;132;0;0;0;0;1;0;0;0;0;5;95;104;116;116;112;4;95;116;99;112;5;108;111;99;97;108;0;0;12;0;1;0;0;17;148;0;6;3;119;101;98;192;12] .
+Definition w_ptr_dotted : bytes := [0;0;132;0;0;0;0;1;0;0;0;0;5;95;104;116;116;112;4;95;116;99;112;5;108;111;99;97;108;0;0;12;0;1;0;0;17;148;0;6;3;97;46;98;192;12] .
+Definition w_ptr_flush2 : bytes := [0;0;132;0;0;0;0;1;0;0;0;0;5;95;104;116;116;112;4;95;116;99;112;5;108;111;99;97;108;0;0;12;128;1;0;0;0;2;0;6;3;119;101;98;192;12] .
+Definition w_mixed_nohost : bytes := [0;0;132;0;0;0;0;1;0;0;0;2;5;95;104;116;116;112;4;95;116;99;112;5;108;111;99;97;108;0;0;12;0;1;0;0;17;148;0;6;3;119;101;98;192;12;192;40;0;33;128;1;0;0;0;120;0;14;0;0;0;0;31;144;5;72;111;115;116;49;192;23;192;40;0;16;128;1;0;0;17;148;0;4;3;97;61;49] .
+Definition w_addr_lower3 : bytes := [0;0;132;0;0;0;0;0;0;0;0;1;5;104;111;115;116;49;5;108;111;99;97;108;0;0;1;128;1;0;0;0;3;0;4;192;168;1;50] .
 
 Definition ex_ifs : iftab := [(2, (true, true)); (3, (true, false))].
 Definition T0 : N := 1000000.
@@ -64,43 +68,88 @@ Lemma ex_follow_facts :
   /\ chk_C04 ex_ifs ex_follow (ex_wakes ex_follow) (map obs_of (run_history ex_ifs ex_follow)) = true.
 Proof. split; vm_compute; reflexivity. Qed.
 
-(* --- refutation of chk_C04 (finding C04-refreshed-record-not-new): a service restarts -
-   goodbye, then a full announcement 700 ms later - while a browser is running that does not
-   have it resolved.  Neither ServiceFound nor ServiceResolved is ever emitted although PTR, SRV
-   and address are live. *)
-Definition ref4_hist : list iter :=
+(* --- repaired findings: their former refutation witnesses now pass the checkers ---------------- *)
+
+(* a service restarts - goodbye, then a full announcement 700 ms later - while a browser is
+   running that does not have it resolved: ServiceFound and ServiceResolved in that iteration *)
+Definition restart_hist : list iter :=
   [ mkIter T0 [] [CBrowse n_ty 1];
     mkIter (T0 + 1000) [mkDgram 2 true w_bye] [];
     mkIter (T0 + 1700) [mkDgram 2 true w_full] [];
     mkIter (T0 + 2000) [] [] ].
 
-Lemma ref4_facts :
-  wf_history ref4_hist = true
-  /\ flat_map (fun o => filter (fun x => is_found_evt x || is_resolved_evt x) o) (run_history ex_ifs ref4_hist) = []
-  /\ chk_C04 ex_ifs ref4_hist (ex_wakes ref4_hist) (map obs_of (run_history ex_ifs ref4_hist)) = false.
+Lemma restart_facts :
+  wf_history restart_hist = true
+  /\ map (fun o => (existsb is_found_evt o, existsb is_resolved_evt o)) (run_history ex_ifs restart_hist)
+     = [(false, false); (false, false); (true, true); (false, false)]
+  /\ chk_C04 ex_ifs restart_hist (ex_wakes restart_hist) (map obs_of (run_history ex_ifs restart_hist)) = true.
 Proof. repeat split; vm_compute; reflexivity. Qed.
 
-(* --- refutation of chk_C05 (finding C05-srv-expiry-two-ptr-names): the instance is advertised
-   under its type and a subtype, both are browsed, the SRV (TTL 3 s) runs out: only one of the
-   two channels gets ServiceRemoved. *)
-Definition ref5_hist : list iter :=
+(* the instance is advertised under its type and a subtype, both are browsed, the SRV (TTL 3 s)
+   runs out: BOTH channels get ServiceRemoved in the iteration at +3 s *)
+Definition twonames_hist : list iter :=
   [ mkIter T0 [] [CBrowse n_ty 1; CBrowse n_sub 2];
     mkIter (T0 + 100) [mkDgram 2 true w_twonames] [];
     mkIter (T0 + 3100) [] [];
     mkIter (T0 + 4000) [] [] ].
 
+Lemma twonames_facts :
+  wf_history twonames_hist = true
+  /\ map (fun o => length (filter is_removed_evt o)) (run_history ex_ifs twonames_hist) = [0; 0; 2; 0]%nat
+  /\ chk_C05 ex_ifs twonames_hist (ex_wakes twonames_hist) (map obs_of (run_history ex_ifs twonames_hist)) = true.
+Proof. repeat split; vm_compute; reflexivity. Qed.
+
+(* SRV target "Host1.local.", the address arrives later, alone, for "host1.local." (TTL 3 s):
+   ServiceResolved when it arrives, ServiceRemoved when it runs out *)
+Definition mixedcase_hist : list iter :=
+  [ mkIter T0 [] [CBrowse n_ty 1];
+    mkIter (T0 + 100) [mkDgram 2 true w_mixed_nohost] [];
+    mkIter (T0 + 300) [mkDgram 2 true w_addr_lower3] [];
+    mkIter (T0 + 600) [] [];
+    mkIter (T0 + 3300) [] [];
+    mkIter (T0 + 4000) [] [] ].
+
+Lemma mixedcase_facts :
+  map (fun o => (existsb is_resolved_evt o, existsb is_removed_evt o)) (run_history ex_ifs mixedcase_hist)
+  = [(false, false); (false, false); (true, false); (false, false); (false, true); (false, false)]
+  /\ chk_C04 ex_ifs mixedcase_hist (ex_wakes mixedcase_hist) (map obs_of (run_history ex_ifs mixedcase_hist)) = true
+  /\ chk_C05 ex_ifs mixedcase_hist (ex_wakes mixedcase_hist) (map obs_of (run_history ex_ifs mixedcase_hist)) = true.
+Proof. repeat split; vm_compute; reflexivity. Qed.
+
+(* --- refutation of chk_C04 (finding C04-D20-dotted-label-followup): the PTR points to an
+   instance whose first label is "a.b"; the follow-up questions ask for the labels a, b, ... *)
+Definition ref4_hist : list iter :=
+  [ mkIter T0 [] [CBrowse n_ty 1];
+    mkIter (T0 + 100) [mkDgram 2 true w_ptr_dotted] [];
+    mkIter (T0 + 600) [] [];
+    mkIter (T0 + 1100) [] [] ].
+
+Lemma ref4_facts :
+  wf_history ref4_hist = true
+  /\ chk_C04 ex_ifs ref4_hist (ex_wakes ref4_hist) (map obs_of (run_history ex_ifs ref4_hist)) = false.
+Proof. split; vm_compute; reflexivity. Qed.
+
+(* --- refutation of chk_C05 (finding C05-ptr-variant-expiry): the PTR is delivered again with
+   the cache-flush bit and TTL 2 s: ServiceRemoved at +2 s although the first PTR (TTL 4500),
+   the SRV and the address are live *)
+Definition ref5_hist : list iter :=
+  [ mkIter T0 [] [CBrowse n_ty 1];
+    mkIter (T0 + 100) [mkDgram 2 true w_full] [];
+    mkIter (T0 + 600) [mkDgram 2 true w_ptr_flush2] [];
+    mkIter (T0 + 2600) [] [];
+    mkIter (T0 + 4000) [] [] ].
+
 Lemma ref5_facts :
   wf_history ref5_hist = true
-  /\ length (flat_map (filter is_resolved_evt) (run_history ex_ifs ref5_hist)) = 2%nat
-  /\ length (flat_map (filter is_removed_evt) (run_history ex_ifs ref5_hist)) = 1%nat
+  /\ map (fun o => existsb is_removed_evt o) (run_history ex_ifs ref5_hist) = [false; false; false; true; false]
   /\ chk_C05 ex_ifs ref5_hist (ex_wakes ref5_hist) (map obs_of (run_history ex_ifs ref5_hist)) = false.
 Proof. repeat split; vm_compute; reflexivity. Qed.
 
 (* the history-level statements, universally quantified, are false of the faithful model *)
 Lemma chk_C04_refuted :
   exists ifs h wakes, wf_history h = true /\ chk_C04 ifs h wakes (map obs_of (run_history ifs h)) = false.
-Proof. exists ex_ifs, ref4_hist, (ex_wakes ref4_hist). destruct ref4_facts as (A & _ & B). auto. Qed.
+Proof. exists ex_ifs, ref4_hist, (ex_wakes ref4_hist). destruct ref4_facts as (A & B). auto. Qed.
 
 Lemma chk_C05_refuted :
   exists ifs h wakes, wf_history h = true /\ chk_C05 ifs h wakes (map obs_of (run_history ifs h)) = false.
-Proof. exists ex_ifs, ref5_hist, (ex_wakes ref5_hist). destruct ref5_facts as (A & _ & _ & B). auto. Qed.
+Proof. exists ex_ifs, ref5_hist, (ex_wakes ref5_hist). destruct ref5_facts as (A & _ & B). auto. Qed.
